@@ -42,6 +42,18 @@ func (c *GammaController) ListWidgetNames(colour Colour) ([]string, error) {
 	return []string{string(colour)}, nil
 }
 
+// Searches widgets (three parameters declared together, then one more: documented in signature order)
+// @Method(GET)
+// @Route(/widgets/search)
+// @Query(tenant)
+// @Query(region)
+// @Query(zone)
+// @Header(limit, { name: "x-limit" })
+// @Response(200) The names
+func (c *GammaController) SearchWidgets(tenant, region, zone string, limit int) ([]string, error) {
+	return nil, nil
+}
+
 // Issues a receipt
 // @Method(POST)
 // @Route(/receipts/{serial})
